@@ -67,6 +67,51 @@ def file_mutations(text, ctxseen=None):
                 b = idx[n + 1]
                 t[i], t[b] = t[b], t[i]
                 yield 'tok-swap%d' % i, ''.join(t)
+        # structural mutations: every JSON value replaced by null; every member of an XML entry replaced by the name of
+        # that entry (an object that refers to itself)
+        if rx is TOK_JSON:
+            try:
+                doc = json.loads(text[text.index('{'):] if text.lstrip().startswith('#') else text)
+            except ValueError:
+                doc = None
+            if doc is not None:
+                paths = []
+
+                def walk(node, path):
+                    if path:
+                        paths.append(path)
+                    if isinstance(node, dict):
+                        for k_ in node:
+                            walk(node[k_], path + [k_])
+                    elif isinstance(node, list):
+                        for i_, x in enumerate(node):
+                            walk(x, path + [i_])
+                walk(doc, [])
+                import copy
+                for path in paths:
+                    key = 'null|' + NUM.sub('N', '/'.join(str(x) if isinstance(x, str) else '#' for x in path))
+                    if ctxseen is not None:
+                        if key in ctxseen:
+                            continue
+                        ctxseen.add(key)
+                    d2 = copy.deepcopy(doc)
+                    n_ = d2
+                    for x in path[:-1]:
+                        n_ = n_[x]
+                    n_[path[-1]] = None
+                    yield 'json-null-' + '/'.join(map(str, path)), json.dumps(d2)
+        else:
+            names = [(m.start(), m.group(1)) for m in re.finditer(r'<entry name="([^"]*)"', text)]
+            for m in re.finditer(r'<member>([^<]*)</member>', text):
+                owner = [nm for pos, nm in names if pos < m.start()]
+                if not owner or owner[-1] == m.group(1):
+                    continue
+                if ctxseen is not None:
+                    key = 'self|' + NUM.sub('N', owner[-1] + '|' + m.group(1))
+                    if key in ctxseen:
+                        continue
+                    ctxseen.add(key)
+                yield 'xml-self-member%d' % m.start(), text[:m.start(1)] + owner[-1] + text[m.end(1):]
     else:
         lines = text.split('\n')
         if lines and lines[-1] == '':
